@@ -151,7 +151,7 @@ def case_sigma(case):
     """standard_deviation == sqrt(nf^2 + (re |d|)^2); explicit std wins."""
     shape, nf, re, std = case
     E = shadow.load()
-    c = set_ctx(Ctx(timeout_ms=60000))
+    c = set_ctx(Ctx(timeout_ms=240000))
     State.OBJECT_ALLOC = True
     saved = install(E)
     grp = f"sigma shape={shape} nf={nf} re={re} explicit_std={std}"
@@ -212,7 +212,7 @@ def case_immutable(case):
     """noise floor / relative error / std unchanged by an operation."""
     shape, nf, re, std, opname = case
     E = shadow.load()
-    c = set_ctx(Ctx(timeout_ms=60000))
+    c = set_ctx(Ctx(timeout_ms=240000))
     State.OBJECT_ALLOC = True
     saved = install(E)
     grp = f"immutable op={opname} shape={shape} nf={nf} re={re} std={std}"
@@ -274,7 +274,7 @@ def case_reassign(case):
     it does change them: array -> scalar -> None -> array, std -> None."""
     shape, what = case
     E = shadow.load()
-    c = set_ctx(Ctx(timeout_ms=60000))
+    c = set_ctx(Ctx(timeout_ms=240000))
     State.OBJECT_ALLOC = True
     saved = install(E)
     grp = f"reassign {what} shape={shape}"
@@ -350,7 +350,7 @@ def case_clean_misfit(case):
     standard deviation (no stale weights)."""
     shape, what = case
     E = shadow.load()
-    c = set_ctx(Ctx(timeout_ms=60000))
+    c = set_ctx(Ctx(timeout_ms=240000))
     State.OBJECT_ALLOC = True
     saved = install(E)
     grp = f"misfit after reassignment and clean('{what}') shape={shape}"
@@ -424,7 +424,7 @@ def case_survey_reuse(case):
     current set of finite data."""
     shape, what = case
     E = shadow.load()
-    c = set_ctx(Ctx(timeout_ms=60000))
+    c = set_ctx(Ctx(timeout_ms=240000))
     State.OBJECT_ALLOC = True
     saved = install(E)
     grp = f"survey re-used by a new simulation after '{what}' shape={shape}"
@@ -495,7 +495,7 @@ def case_copy_select(case):
     exact sub-cube."""
     shape, nf, re, std = case
     E = shadow.load()
-    c = set_ctx(Ctx(timeout_ms=60000))
+    c = set_ctx(Ctx(timeout_ms=240000))
     State.OBJECT_ALLOC = True
     saved = install(E)
     grp = f"copy/select shape={shape} nf={nf} re={re} std={std}"
@@ -590,7 +590,7 @@ def case_misfit(case):
     """Simulation.misfit == 1/2 sum |syn-obs|^2 / std^2."""
     shape, nf, re, std, with_nan = case
     E = shadow.load()
-    c = set_ctx(Ctx(timeout_ms=60000))
+    c = set_ctx(Ctx(timeout_ms=240000))
     State.OBJECT_ALLOC = True
     saved = install(E)
     grp = f"misfit shape={shape} nf={nf} re={re} std={std} nan={with_nan}"
